@@ -119,8 +119,11 @@ partial def advLoop (d : D) (target : Nat) (order : List String) : D :=
     advLoop d target order
   else { d with s := { d.s with now := target } }
 
+/-- stands for a reply of the field-less type `EmptyArg` -/
+def emptySentinel : Nat := 4294967295
+
 def classOf : Outcome → String
-  | .reply (some v) => s!"ok:{v}"
+  | .reply (some v) => if v == emptySentinel then "ok:empty" else s!"ok:{v}"
   | .reply none => "ok:nil"
   | .remoteErr e => s!"rerr:{e}"
   | .decodeErr => "err"
@@ -157,6 +160,7 @@ def payloadOf (kind : String) (w : Nat) (nz : Bool := true) : Option Payload :=
   match kind with
   | "ok" => some (.ok (some w))
   | "nil" => some (.ok none)
+  | "empty" => some (.ok (some emptySentinel))
   | "err" => if nz then some (.err w) else some (.ok none)   -- `ErrCode == 0` is not an error reply
   | "bad" => some .bad
   | _ => none
@@ -202,6 +206,29 @@ def stepModel (d : D) (line : String) : D × String :=
       match parseActs ((kv ws "s").getD "").toList [] with
       | ([a], _) => if a.kind == 'P' then (d, "bad-op") else observe (doIssue d a "a.b") "ok"
       | _ => (d, "bad-op")
+    | "areq" =>
+      -- node-level `app.Request` routed to a peer: the same `RequestEx`; the echo peer answers at once
+      let peer := (kv ws "peer").getD ""
+      match parseActs ((kv ws "s").getD "").toList [] with
+      | ([a], _) =>
+        if a.kind == 'P' || a.kind == 'N' || a.kind == 'n' || (peer != "echo" && peer != "hold") then (d, "bad-op") else
+        let inst := d.s.ninst
+        let d := doIssue d a "remote.hello"
+        let d := if peer == "echo" then
+            match lookupD inst d.sentId with
+            | some id => if id != 0 then settle { d with s := response d.s id (.ok (some (7000 + inst))) } else d
+            | none => d
+          else d
+        observe d "ok"
+      | _ => (d, "bad-op")
+    | "anotify" =>
+      let peer := (kv ws "peer").getD ""
+      if peer == "none" then
+        let now := d.s.now
+        let (d, o) := observe d "ok"
+        (d, o.replace "iss= " s!"iss=x:X@{now} ")
+      else if peer != "echo" && peer != "hold" then (d, "bad-op")
+      else observe (doIssue d (.mk (if kv ws "ser" == some "0" then 'n' else 'N') []) "remote.hello") "ok"
     | "noroute" =>
       let now := d.s.now
       let cb := if kvNat ws "cb" == some 1 then s!"x:noservice@{now}" else ""
@@ -279,6 +306,7 @@ def wantClass (kind : String) (w : Nat) (nz : Bool) : String :=
   match kind with
   | "ok" => s!"ok:{w}"
   | "nil" => "ok:nil"
+  | "empty" => "ok:empty"                             -- zero bytes on the wire, still a message of its type
   | "err" => if nz then s!"rerr:{w}" else "ok:nil"   -- any ErrCode ≠ 0, negative ones included, is a remote error
   | _ => "err"
 
@@ -339,6 +367,13 @@ def specStep (st : SS) (line : String) : SS × String :=
                     else if (i.kind == 'N') && id != 0 then some (viol "notify-created-pending" s!"notify {tg} was sent with request id {id}" op) else none
         | none => none)
       -- 2. the response this op delivers: (target id, expected class)
+      -- `areq peer=echo`: the peer answers the request issued by this very op with TestHello{7000+tag}
+      let echoInst : Option Inst :=
+        if opk == "areq" && kv ws "peer" == some "echo" then
+          match newInsts.head? with
+          | some n => insts.find? fun i => i.tag == n.tag && (i.kind == 'R' || i.kind == 'r') && i.id.isSome && i.id != some 0
+          | none => none
+        else none
       let target : Option (Nat × String) :=
         let cls := wantClass ((kv ws "kind").getD "") ((kvNat ws "w").getD 0) (codeNonzero ws)
         if opk == "deliver" then
@@ -348,9 +383,11 @@ def specStep (st : SS) (line : String) : SS × String :=
             | none => none
           | none => none
         else if opk == "inject" then (kvNat ws "id").map (·, cls)
-        else none
+        else match echoInst with
+          | some e => e.id.map (·, s!"ok:{7000 + e.tag}")
+          | none => none
       -- the instance that response answers: registered under that id right now
-      let answers : Option Inst := target.bind fun (id, _) =>
+      let answers : Option Inst := if echoInst.isSome then echoInst else target.bind fun (id, _) =>
         insts.find? fun i => i.id == some id && (i.kind == 'R' || i.kind == 'r') && !i.cbSeen && !i.answered
                               && st.prevPend.contains id && !isNew i.tag
       -- 3. callbacks, in order
@@ -415,7 +452,7 @@ def specStep (st : SS) (line : String) : SS × String :=
       let pendViol : Option String := firstSome (pend.map fun id =>
         match insts.filter (fun i => i.id == some id && (i.kind == 'R' || i.kind == 'r')) with
         | [] =>
-          if opk == "req" && (((kv ws "s").getD "") == "N" || ((kv ws "s").getD "") == "n") then
+          if (opk == "req" && (((kv ws "s").getD "") == "N" || ((kv ws "s").getD "") == "n")) || opk == "anotify" then
             some (viol "notify-created-pending" s!"a notification registered pending id {id}" op)
           else some (viol "pending-residue" s!"pending id {id} belongs to no outstanding request" op)
         | is =>
@@ -433,7 +470,8 @@ def specStep (st : SS) (line : String) : SS × String :=
           else none
         | none => none)
       let ntfViol : Option String :=
-        if opk == "req" && (((kv ws "s").getD "") == "N" || ((kv ws "s").getD "") == "n") && sortNat pend != sortNat st.prevPend then
+        if ((opk == "req" && (((kv ws "s").getD "") == "N" || ((kv ws "s").getD "") == "n")) || opk == "anotify")
+            && sortNat pend != sortNat st.prevPend then
           some (viol "notify-created-pending" s!"a notification changed the pending table {st.prevPend} -> {pend}" op) else none
       let res := firstSome [badSent, cbViol, serFail, ntfViol, missedAnswer, xMissing, pendViol, lostViol]
       ({ now := now, insts := insts, prevPend := pend, pans := pans, poisoned := res.isSome }, res.getD "ok")
